@@ -419,13 +419,15 @@ func (w *concWorld) Exec(p *Plan, st *RunStats) *Violation {
 		o.cur = phaseOp
 		// The state before the phase is observed on a twin (an identically built second container):
 		// calling observers on the container itself would already be a read and would warm any lazily
-		// maintained internal structure before the concurrent readers get to it.
-		pre := twinOf.ObsJSON()
+		// maintained internal structure before the concurrent readers get to it. Even the twin is observed
+		// only after the concurrent phase (no reader touches it, so it reads the same before and after):
+		// its observers would warm state the package keeps per process (a cache filled on first use).
 		img0 := fingerprint(sub.Real())
 		tasks := concurrentRun(sub, scripts)
 		if tasks == nil {
 			return false
 		}
+		pre := twinOf.ObsJSON()
 		o.cur = phaseOp
 		if post := sub.ObsJSON(); post != pre {
 			o.Fail("C18", "state-changed-by-readers", "the container's observable state changed during a read phase:\n before %s\n after  %s", pre, post)
